@@ -1,4 +1,4 @@
-import H5V.Lemmas.HtmlTBSkelShapeAF
+import H5V.Lemmas.HtmlTBSkelAdjAA
 /-!
 C06, second invariant layer, part 10: the adoption agency algorithm under `Big`.
 
@@ -37,7 +37,7 @@ theorem Big.rehigh {m : Mode} {r : Id} {ph : Phase} {s : State} {low high high' 
     (h : Big m r ph s) (hst : s.openElems = low ++ high)
     (hd : ∀ x ∈ high, keepName (nm s.dom x) = false)
     (hd' : ∀ x ∈ high', keepName (nm s.dom x) = false ∧ Loose s.dom x)
-    (hnd : (low ++ high').Nodup) (haf : AFok s.dom af') :
+    (hnd : (low ++ high').Nodup) (haf : AFok s.dom af') (hadj : AdjD s.dom (low ++ high')) :
     Big m r ph { s with openElems := low ++ high', activeFormatting := af' } := by
   obtain ⟨up, hc, hbb, hneed, hfp⟩ := h
   -- the root is in the lower part
@@ -92,7 +92,7 @@ theorem Big.rehigh {m : Mode} {r : Id} {ph : Phase} {s : State} {low high high' 
       rw [beq_iff_eq.mp hq, keepName_template] at this; cases this
   have hcore : Core { s with openElems := (r :: low1) ++ high', activeFormatting := af' } r (low1 ++ high') ph := by
     refine ⟨hl, rfl, hc.rdoc, hnd, htg, haf, ?_, hc.tmm, hc.form, hc.rtu, hc.rnd, hc.kids, hc.elems, ?_,
-      Afx.of_elems hc.elems hbb.notPf⟩
+      Afx.of_elems hc.elems hbb.notPf, hadj⟩
     · show tcount s.dom ((r :: low1) ++ high') ≤ _
       refine Nat.le_trans (Nat.le_of_eq ?_) hc.tc
       rw [hst]
@@ -192,9 +192,13 @@ structure Stp (r : Id) (s s' : State) : Prop where
   chg : Chg s.dom s'.dom
   rs : RS r s.dom s'.dom
   k0 : s'.dom.childrenOf 0 = s.dom.childrenOf 0
+  adj : AdjD s'.dom s'.openElems
 
 theorem Big.stp {m : Mode} {r : Id} {ph : Phase} {s s' : State} (h : Big m r ph s) (t : Stp r s s') : Big m r ph s' :=
-  h.dom t.late t.dom t.chg t.rs t.k0
+  h.dom t.late t.dom t.chg t.rs t.k0 t.adj
+
+theorem Big.adj {m : Mode} {r : Id} {ph : Phase} {s : State} (h : Big m r ph s) : AdjD s.dom s.openElems := by
+  obtain ⟨_, hc, _⟩ := h; exact hc.adj
 
 theorem Stp.oe {r : Id} {s s' : State} (t : Stp r s s') : s'.openElems = s.openElems := by rw [t.dom]
 theorem Stp.af {r : Id} {s s' : State} (t : Stp r s s') : s'.activeFormatting = s.activeFormatting := by rw [t.dom]
@@ -245,17 +249,18 @@ theorem Big.fl {m : Mode} {r : Id} {ph : Phase} {s : State} {x : Id} (h : Big m 
     rw [e3, keepName_head] at hk; cases hk
 
 theorem removeFromParent_stp {m : Mode} {r : Id} {ph : Phase} {s s' : State} {x : Id} {u : Unit}
-    (h : Big m r ph s) (hx : Fl r s.dom x) (e : sinkUnit (.removeFromParent x) s = .ok (u, s')) : Stp r s s' := by
+    (h : Big m r ph s) (hx : Fl r s.dom x) (e : sinkUnit (.removeFromParent x) s = .ok (u, s'))
+    (hadj : AdjD s'.dom s.openElems) : Stp r s s' := by
   obtain ⟨out, e⟩ := sinkUnit_ok.mp e
   obtain ⟨d, hd, rfl⟩ := sink_ok.mp e
   have hl := h.late
   obtain ⟨hb', hc', _, _, _, hsame⟩ := removeFromParent_spec hl.base (apply_remove hd)
   have hk0 := hsame 0 hx.2.1
-  exact ⟨(hl.dom hb' hc' hk0).1, rfl, hc', rs_removeFromParent hl.base hx.2.2 (apply_remove hd), hk0⟩
+  exact ⟨(hl.dom hb' hc' hk0).1, rfl, hc', rs_removeFromParent hl.base hx.2.2 (apply_remove hd), hk0, hadj⟩
 
 theorem appendNode_stp {m : Mode} {r : Id} {ph : Phase} {s s' : State} {p x : Id} {u : Unit}
     (h : Big m r ph s) (hp : s.dom.isElement p = true) (hpr : p ≠ r) (hpx : p ≠ x) (hx : Fl r s.dom x)
-    (e : sinkUnit (.append p (.node x)) s = .ok (u, s')) : Stp r s s' := by
+    (e : sinkUnit (.append p (.node x)) s = .ok (u, s')) (hadj : AdjD s'.dom s.openElems) : Stp r s s' := by
   have hl := h.late
   have hip : IpOk s.dom (.lastChild p) := ⟨ne_zero_of_isElement hl.base hp, isContainer_of_isElement hp⟩
   have e' : H5V.Model.HtmlTB.insertAt (.lastChild p) (.node x) s = .ok (u, s') := e
@@ -266,22 +271,25 @@ theorem appendNode_stp {m : Mode} {r : Id} {ph : Phase} {s s' : State} {p x : Id
     rcases hq with rfl | hq
     · exact hpx
     · cases hq
-  exact ⟨hl', hdo, hext.chg, hrs, hk0⟩
+  exact ⟨hl', hdo, hext.chg, hrs, hk0, by rw [show s'.openElems = s.openElems by rw [hdo]]; exact hadj⟩
 
 theorem reparent_stp {m : Mode} {r : Id} {ph : Phase} {s s' : State} {n np : Id} {u : Unit}
     (h : Big m r ph s) (hn : s.dom.isElement n = true) (hnp : s.dom.isElement np = true) (hnr : n ≠ r) (hnpr : np ≠ r)
-    (e : sinkUnit (.reparentChildren n np) s = .ok (u, s')) : Stp r s s' := by
+    (e : sinkUnit (.reparentChildren n np) s = .ok (u, s')) (hadj : AdjD s'.dom s.openElems) : Stp r s s' := by
   obtain ⟨out, e⟩ := sinkUnit_ok.mp e
   obtain ⟨d, hd, rfl⟩ := sink_ok.mp e
   have hl := h.late
   obtain ⟨hb', hc', hk⟩ := reparentChildren_spec hl.base (ne_zero_of_isElement hl.base hn)
     (ne_zero_of_isElement hl.base hnp) (isContainer_of_isElement hnp) (apply_reparent hd)
-  exact ⟨(hl.dom hb' hc' hk).1, rfl, hc', rs_reparent hl.base hnr hnpr (apply_reparent hd), hk⟩
+  exact ⟨(hl.dom hb' hc' hk).1, rfl, hc', rs_reparent hl.base hnr hnpr (apply_reparent hd), hk, hadj⟩
 
 theorem createElement_stp {m : Mode} {r : Id} {ph : Phase} {s s' : State} {name : QualName} {attrs : List Attr}
     {dup : Bool} {el : Id} (h : Big m r ph s) (e : createElementWithFlags name attrs dup s = .ok (el, s')) :
-    Stp r s s' ∧ s.dom.size ≤ el ∧ nm s'.dom el = ⟨name.ns, name.loc⟩ ∧ Fl r s'.dom el := by
+    Stp r s s' ∧ s.dom.size ≤ el ∧ nm s'.dom el = ⟨name.ns, name.loc⟩ ∧ Fl r s'.dom el ∧
+      (∀ q, el ∉ s'.dom.childrenOf q) ∧ s'.dom.parentOf el = none ∧ s'.dom.childrenOf el = [] ∧
+      (∀ tc, s'.dom.templateContentsOf el = some tc → s'.dom.childrenOf tc = []) := by
   obtain ⟨up, hc, _⟩ := h
+  obtain ⟨hadj', hpar', hkids', _, htc', _⟩ := createElement_adj hc.late hc.adj e
   obtain ⟨hc3, hdo3, hchg3, hfresh3, hel3, hnm3, hnol3⟩ := createElement_core hc e
   obtain ⟨_, _, _, hk1, _⟩ := createElementWithFlags_any hc.late.base e
   have hrs : RS r s.dom s'.dom := by
@@ -290,12 +298,25 @@ theorem createElement_stp {m : Mode} {r : Id} {ph : Phase} {s s' : State} {name 
     obtain ⟨hdom1, _⟩ := apply_createElement hd1
     rw [hdom1]
     exact rs_createElement r hc.late.base _ _ _
-  exact ⟨⟨hc3.late, hdo3, hchg3, hrs, hk1 0⟩, hfresh3, hnm3, hel3, hnol3 0, hnol3 r⟩
+  exact ⟨⟨hc3.late, hdo3, hchg3, hrs, hk1 0, hadj'⟩, ⟨hfresh3, hnm3, ⟨hel3, hnol3 0, hnol3 r⟩, hnol3, hpar', hkids',
+    fun tc h => (htc' tc h).1⟩⟩
+
+theorem Big.nodup {m : Mode} {r : Id} {ph : Phase} {s : State} (h : Big m r ph s) : s.openElems.Nodup := by
+  obtain ⟨_, hc, _⟩ := h; exact hc.nodup
+
+theorem Big.root_mem {m : Mode} {r : Id} {ph : Phase} {s : State} (h : Big m r ph s) : r ∈ s.openElems := by
+  obtain ⟨_, hc, _⟩ := h; exact hc.root_mem
+
+theorem Big.root_name {m : Mode} {r : Id} {ph : Phase} {s : State} (h : Big m r ph s) : nm s.dom r = hN "html" := by
+  obtain ⟨_, hc, _⟩ := h; exact hc.root_name
 
 /-- `insert_appropriately` of a floating element below an override target -/
 theorem insertAppropriately_stp {m : Mode} {r : Id} {ph : Phase} {s s' : State} {x t : Id} {u : Unit}
     (h : Big m r ph s) (ht : t ∈ s.openElems ∧ t ≠ r) (hx : Fl r s.dom x)
     (hcand : ∀ ip, ARes s t ip → ∀ p, ip.nodes.1 = p ∨ ip.nodes.2 = some p → p ≠ x)
+    (hxp : s.dom.parentOf x = none) (hxk : keepName (nm s.dom x) = false)
+    (hK : ∀ y ∈ s.openElems, keepName (nm s.dom y) = true → Before s.openElems y x)
+    (htx : Before s.openElems t x)
     (e : insertAppropriately (.node x) (some t) s = .ok (u, s')) : Stp r s s' := by
   unfold insertAppropriately at e
   obtain ⟨ip, s1, e1, e2⟩ := bind_ok.mp e
@@ -311,7 +332,84 @@ theorem insertAppropriately_stp {m : Mode} {r : Id} {ph : Phase} {s s' : State} 
   have hrs : RS r s1.dom s'.dom :=
     insertAt_rs (child := .node x) hb1.late.base hb1.rtu hipr1 ⟨hx1.2.2, hcand ip hares⟩ e2
   have hsk := SameSk.of_nodes q1.nodes
-  refine ⟨hl2, ?_, hsk.chg.trans hext2.chg, (RS.of_nodes q1.nodes).trans hrs, ?_⟩
+  have hadj : AdjD s'.dom s'.openElems := by
+    have hoe : s'.openElems = s1.openElems := by rw [hdo2]
+    rw [hoe]
+    have hnd : s.openElems.Nodup := h.nodup
+    refine insertAt_open_adj hipok1 hb1.adj (by rw [parentOf_of_nodes q1.nodes]; exact hxp)
+      (isText_false_of_isElement hx1.1) (by rw [q1.nm]; exact not_table_of_keepName_false hxk) (hcand ip hares) ?_ e2
+    intro P a b hP hpos
+    rw [q1.openElems]
+    have hpos' : NodePos s.dom ip P b :=
+      hpos.congr (fun y => (childrenOf_of_nodes q1.nodes y).symm) (fun p _ => (parentOf_of_nodes q1.nodes p).symm)
+    refine ⟨?_, fun T _ hn hTO => hK T hTO (by rw [← q1.nm, hn]; exact keepName_template),
+      fun y _ hyO hyn => hK y hyO (by rw [← q1.nm, hyn]; decide)⟩
+    intro hPO
+    have hPel : s.dom.isElement P = true := h.late.st.oe P hPO
+    cases hares with
+    | plain =>
+      cases hpos' with
+      | last hb hip =>
+        rcases hip with hip | ⟨e', hip, _⟩
+        · have : t' = P := by injection hip
+          rw [← this]; exact htx
+        · cases hip
+      | before e' p' b' hip _ _ _ => cases hip
+    | tmpl tc htc _ =>
+      cases hpos' with
+      | last hb hip =>
+        rcases hip with hip | ⟨e', hip, _⟩
+        · have : tc = P := by injection hip
+          rw [this] at htc
+          exact absurd htc (tc_not_element h.late.base hPel)
+        · cases hip
+      | before e' p' b' hip _ _ _ => cases hip
+    | foster ip' _ _ hres =>
+      cases hres with
+      | tmpl t' tc _ htc _ =>
+        cases hpos' with
+        | last hb hip =>
+          rcases hip with hip | ⟨e', hip, _⟩
+          · have : tc = P := by injection hip
+            rw [this] at htc
+            exact absurd htc (tc_not_element h.late.base hPel)
+          · cases hip
+        | before e' p' b' hip _ _ _ => cases hip
+      | table pre post e p hl hn hpre =>
+        have hst : s.openElems = post.reverse ++ p :: e :: pre.reverse := by
+          have := congrArg List.reverse hl
+          rw [List.reverse_reverse] at this
+          rw [this]; simp
+        have heO : e ∈ s.openElems := by rw [hst]; simp
+        have hex : Before s.openElems e x := hK e heO (by rw [hn]; decide)
+        cases hpos' with
+        | last hb hip =>
+          rcases hip with hip | ⟨e', hip, _⟩
+          · cases hip
+          · have hpP : p = P := by injection hip
+            rw [← hpP]
+            refine before_trans hnd ?_ hex
+            rw [hst]
+            exact before_mid_post (by simp)
+        | before e' p' b' hip hpe hem hb =>
+          have hee : e = e' := by injection hip
+          rw [← hee] at hem
+          exact before_trans hnd (h.adj.pb P e hem heO hPO) hex
+      | bottom hh hhd _ =>
+        cases hpos' with
+        | last hb hip =>
+          rcases hip with hip | ⟨e', hip, _⟩
+          · have : hh = P := by injection hip
+            rw [← this]
+            obtain ⟨up, hc, _⟩ := id h
+            have hr : hh = r := by
+              rw [hc.stack] at hhd
+              simpa using hhd.symm
+            rw [hr]
+            exact hK r h.root_mem (by rw [hc.root_name]; exact keepName_html)
+          · cases hip
+        | before e' p' b' hip _ _ _ => cases hip
+  refine ⟨hl2, ?_, hsk.chg.trans hext2.chg, (RS.of_nodes q1.nodes).trans hrs, ?_, hadj⟩
   · have h1 := q1.rest
     show s' = { s with dom := s'.dom, traceRev := s'.traceRev }
     rw [hdo2, h1]
@@ -369,7 +467,8 @@ theorem Big.high {m : Mode} {r : Id} {ph : Phase} {s : State} {below above : Lis
 
 
 theorem Stp.of_qs {m : Mode} {r : Id} {ph : Phase} {s s' : State} (h : Big m r ph s) (q : QS s s') : Stp r s s' :=
-  ⟨(h.qs q).late, q.rest, (SameSk.of_nodes q.nodes).chg, RS.of_nodes q.nodes, childrenOf_of_nodes q.nodes 0⟩
+  ⟨(h.qs q).late, q.rest, (SameSk.of_nodes q.nodes).chg, RS.of_nodes q.nodes, childrenOf_of_nodes q.nodes 0,
+    (h.qs q).adj⟩
 
 /-! ### the frame of the adoption agency: a fixed lower part, a disposable upper part -/
 
@@ -395,9 +494,9 @@ theorem AAF.loose {m : Mode} {r : Id} {ph : Phase} {s : State} {low high : List 
 
 theorem AAF.edit {m : Mode} {r : Id} {ph : Phase} {s : State} {low high high' : List Id} {af' : List FormatEntry}
     (h : AAF m r ph s low high) (hd' : ∀ x ∈ high', keepName (nm s.dom x) = false ∧ Loose s.dom x)
-    (hnd : (low ++ high').Nodup) (haf : AFok s.dom af') :
+    (hnd : (low ++ high').Nodup) (haf : AFok s.dom af') (hadj : AdjD s.dom (low ++ high')) :
     AAF m r ph { s with openElems := low ++ high', activeFormatting := af' } low high' :=
-  ⟨h.big.rehigh h.st h.dis hd' hnd haf, rfl, fun x hx => (hd' x hx).1⟩
+  ⟨h.big.rehigh h.st h.dis hd' hnd haf hadj, rfl, fun x hx => (hd' x hx).1⟩
 
 theorem nodup_set {α : Type} : ∀ {l : List α} {y : α} (i : Nat), l.Nodup → y ∉ l → (l.set i y).Nodup
   | [], _, _, h, _ => by simpa using h
@@ -442,11 +541,12 @@ structure AAPost (m : Mode) (r : Id) (ph : Phase) (low : List Id) (s s' : State)
   nl : ln ∉ low
   dis : keepName (nm s'.dom ln) = false
   chg : Chg s.dom s'.dom
+  lnO : ln ∈ s'.openElems
 
 theorem AAPost.pre {m : Mode} {r : Id} {ph : Phase} {low : List Id} {s s1 s' : State} {ln : Id}
     (h : AAPost m r ph low s1 s' ln) (hm : s1.mode = s.mode) (ho : s1.origMode = s.origMode) (hc : Chg s.dom s1.dom) :
     AAPost m r ph low s s' ln :=
-  ⟨h.fr, h.mode.trans hm, h.orig.trans ho, h.fl, h.nl, h.dis, hc.trans h.chg⟩
+  ⟨h.fr, h.mode.trans hm, h.orig.trans ho, h.fl, h.nl, h.dis, hc.trans h.chg, h.lnO⟩
 
 theorem afRemove_sem {i : Nat} {site : String} {s s' : State} {u : Unit} (e : afRemove i site s = .ok (u, s')) :
     s' = { s with activeFormatting := s.activeFormatting.eraseIdx i } := by
@@ -467,11 +567,6 @@ theorem AAF.afRm {m : Mode} {r : Id} {ph : Phase} {s s' : State} {low high : Lis
   exact ⟨⟨hb, by rw [hoe]; exact h.st, by rw [hd]; exact h.dis⟩, hm, ho, hd⟩
 
 
-theorem Big.nodup {m : Mode} {r : Id} {ph : Phase} {s : State} (h : Big m r ph s) : s.openElems.Nodup := by
-  obtain ⟨_, hc, _⟩ := h; exact hc.nodup
-
-theorem Big.root_mem {m : Mode} {r : Id} {ph : Phase} {s : State} (h : Big m r ph s) : r ∈ s.openElems := by
-  obtain ⟨_, hc, _⟩ := h; exact hc.root_mem
 
 theorem fresh_ne {d : Dom} {y new : Id} (hy : d.isElement y = true) (hn : d.size ≤ new) : new ≠ y := by
   rintro rfl
@@ -497,11 +592,11 @@ theorem aa_index {l low0 high : List Id} {f node : Id} {n : Nat} (hst : l = (low
 theorem aaInner_big {m : Mode} {r : Id} {ph : Phase} {f fb : Id} {low0 : List Id} :
     ∀ (ni ic : Nat) (ln : Id) (bm : Bookmark) (s s' : State) (res : Id × Bookmark) (high : List Id),
       AAF m r ph s (low0 ++ [f]) high → low0.length < ni → Fl r s.dom ln → ln ∉ low0 ++ [f] →
-      keepName (nm s.dom ln) = false →
+      keepName (nm s.dom ln) = false → s.openElems[ni]? = some ln →
       aaInner f fb ni ic ln bm s = .ok (res, s') → AAPost m r ph (low0 ++ [f]) s s' res.1
-  | 0, _, _, _, _, _, _, _, _, _, _, _, _, e => by
+  | 0, _, _, _, _, _, _, _, _, _, _, _, _, _, e => by
     unfold aaInner at e; exact absurd e panicAt_ok
-  | n + 1, ic, ln, bm, s, s', res, high, hf, hk, hln, hlnl, hlnk, e => by
+  | n + 1, ic, ln, bm, s, s', res, high, hf, hk, hln, hlnl, hlnk, hlnO, e => by
     unfold aaInner at e
     rw [getS_bind] at e
     cases hg : s.openElems[n]? with
@@ -520,7 +615,8 @@ theorem aaInner_big {m : Mode} {r : Id} {ph : Phase} {f fb : Id} {low0 : List Id
       have hln1 := hln.stp t1
       rcases ite_run e2 with ⟨hbt, e2⟩ | ⟨hbf, e2⟩
       · obtain ⟨rfl, rfl⟩ := pure_ok.mp e2
-        exact ⟨⟨high, hf1⟩, t1.mode, t1.orig, hln1, hlnl, by rw [nm_chg t1.chg hln.1]; exact hlnk, t1.chg⟩
+        exact ⟨⟨high, hf1⟩, t1.mode, t1.orig, hln1, hlnl, by rw [nm_chg t1.chg hln.1]; exact hlnk, t1.chg,
+          by rw [q1.openElems]; exact List.mem_of_getElem? hlnO⟩
       · -- the node is above the formatting element
         have hne : node ≠ f := by
           rw [hb] at hbf
@@ -543,12 +639,17 @@ theorem aaInner_big {m : Mode} {r : Id} {ph : Phase} {f fb : Id} {low0 : List Id
             have := hf2.edit (high' := high.eraseIdx (n - (low0 ++ [f]).length)) (af' := s2.activeFormatting)
               (fun x hx => ⟨hf2.dis x (hsub.subset hx), hf2.loose hlne (hsub.subset hx)⟩)
               ((hsub.append_left _).nodup (by rw [← hf2.st]; exact hf2.big.nodup)) hf2.big.afok
+              (hf2.big.adj.sub hf2.big.nodup (by rw [hf2.st]; exact hsub.append_left _))
             rw [hs3, hst3]; exact this
+          have hlnO3 : s3.openElems[n]? = some ln := by
+            rw [hs3]
+            show (s2.openElems.eraseIdx n)[n]? = some ln
+            rw [List.getElem?_eraseIdx_of_ge (Nat.le_refl n), hf2.st, ← hf.st]; exact hlnO
           have hd3 : s3.dom = s2.dom := by rw [hs3]
           have hm3 : s3.mode = s2.mode := by rw [hs3]
           have ho3 : s3.origMode = s2.origMode := by rw [hs3]
           have := aaInner_big n (ic + 1) ln bm s3 s' res _ hf3 hk' (by rw [hd3]; exact hln2) hlnl
-            (by rw [hd3, nm_chg hc2 hln.1]; exact hlnk) e7
+            (by rw [hd3, nm_chg hc2 hln.1]; exact hlnk) hlnO3 e7
           exact this.pre (hm3.trans hm2) (ho3.trans ho2) (by rw [hd3]; exact hc2)
         rcases ite_run e2 with ⟨hic, e2⟩ | ⟨hic, e2⟩
         · -- more than three iterations: drop the node
@@ -609,8 +710,22 @@ theorem aaInner_big {m : Mode} {r : Id} {ph : Phase} {f fb : Id} {low0 : List Id
                   obtain ⟨hfn, _, _⟩ := hf2.big.afok h0 t hmem
                   -- the replacement element
                   obtain ⟨new, s4, e9, e10⟩ := bind_ok.mp e8
-                  obtain ⟨t4, hfresh, hnm4, hfl4⟩ := createElement_stp hf3.big e9
+                  obtain ⟨t4, hfresh, hnm4, hfl4, hnol4, hpar4, hkids4, htc4⟩ := createElement_stp hf3.big e9
                   have hf4 := hf3.stp t4
+                  -- the stack around the node
+                  obtain ⟨h1, h2, hhigh, hh1⟩ := split_at_index hgh
+                  have hst0 : s.openElems = (low0 ++ [f] ++ h1) ++ node :: h2 := by
+                    rw [hf.st, hhigh]; simp
+                  have hlen1 : (low0 ++ [f] ++ h1).length = n := by
+                    rw [List.length_append, hh1]; omega
+                  obtain ⟨h2', hh2⟩ : ∃ h2', h2 = ln :: h2' := by
+                    have := hlnO
+                    rw [hst0, ← hlen1, getElem?_split_succ] at this
+                    cases h2 with
+                    | nil => cases this
+                    | cons a t => simp only [List.head?_cons, Option.some.injEq] at this; exact ⟨t, by rw [this]⟩
+                  have hset : high.set (n - (low0 ++ [f]).length) new = h1 ++ new :: h2 := by
+                    rw [hhigh, ← hh1, set_split]
                   have hln4 := hln3.stp t4
                   obtain ⟨u5, s5, e11, e12⟩ := bind_ok.mp e10
                   have hs5 := modS_ok.mp e11
@@ -631,7 +746,20 @@ theorem aaInner_big {m : Mode} {r : Id} {ph : Phase} {f fb : Id} {low0 : List Id
                         · subst h1; exact ⟨hk4, hfl4.loose⟩)
                       (by rw [← hst5]; exact nodup_set n hf4.big.nodup hnew4)
                       (hf4.big.afok.set nfi hfn hnm4 hfl4.1)
+                      (by
+                        rw [hset]
+                        have h0 : AdjD s4.dom ((low0 ++ [f] ++ h1) ++ h2) := by
+                          refine hf4.big.adj.sub hf4.big.nodup ?_
+                          rw [hf4.st, hhigh]
+                          have : low0 ++ [f] ++ (h1 ++ node :: h2) = (low0 ++ [f] ++ h1) ++ node :: h2 := by simp
+                          rw [this]
+                          exact List.Sublist.append (List.Sublist.refl _) (List.sublist_cons_self _ _)
+                        have := h0.stackInsert_isolated (c := new) hnol4 hkids4 htc4
+                        have h3 : low0 ++ [f] ++ (h1 ++ new :: h2) = (low0 ++ [f] ++ h1) ++ new :: h2 := by simp
+                        rw [h3]; exact this)
                     rw [hs5, hst5]; exact this
+                  have hoe5 : s5.openElems = (low0 ++ [f] ++ h1) ++ new :: ln :: h2' := by
+                    rw [hf5.st, hset, hh2]; simp
                   have hd5 : s5.dom = s4.dom := by rw [hs5]
                   have hm5 : s5.mode = s4.mode := by rw [hs5]
                   have ho5 : s5.origMode = s4.origMode := by rw [hs5]
@@ -661,13 +789,26 @@ theorem aaInner_big {m : Mode} {r : Id} {ph : Phase} {f fb : Id} {low0 : List Id
                       AAPost m r ph (low0 ++ [f]) s s' res.1 := by
                     intro bk e15
                     obtain ⟨u7, s7, e16, e17⟩ := bind_ok.mp e15
-                    have t7 := removeFromParent_stp hf6.big hln6 e16
+                    have hoe6 : s6.openElems = (low0 ++ [f] ++ h1) ++ new :: ln :: h2' := by
+                      rw [q6.openElems]; exact hoe5
+                    have hlnk6 : keepName (nm s6.dom ln) = false := by rw [nm_chg hchg6 hln.1]; exact hlnk
+                    obtain ⟨a7, hpar7, _, _, hdat7, _⟩ := removeFromParent_adj hf6.big.adj
+                      (Or.inr ⟨by rw [hoe6]; simp, exm_of_keepName_false hlnk6⟩) e16
+                    have t7 := removeFromParent_stp hf6.big hln6 e16 a7
                     have hf7 := hf6.stp t7
                     obtain ⟨u8, s8, e18, e19⟩ := bind_ok.mp e17
-                    have t8 := appendNode_stp hf7.big (hfl6.stp t7).1 hnr hnln (hln6.stp t7) e18
+                    have hoe7 : s7.openElems = (low0 ++ [f] ++ h1) ++ new :: ln :: h2' := by rw [t7.oe]; exact hoe6
+                    obtain ⟨a8, _, _, _⟩ := appendNode_adj hf7.big.adj hf7.big.late.base hnln (hfl6.stp t7).1 hpar7
+                      (isText_false_of_isElement (hln6.stp t7).1)
+                      (by rw [nm_of_data (hdat7 ln)]; exact not_table_of_keepName_false hlnk6)
+                      (fun _ _ => by rw [hoe7]; exact before_mid_post (by simp)) e18
+                    have t8 := appendNode_stp hf7.big (hfl6.stp t7).1 hnr hnln (hln6.stp t7) e18 a8
                     have hf8 := hf7.stp t8
+                    have hlnO8 : s8.openElems[n]? = some new := by
+                      rw [t8.oe, hoe7, ← hlen1]; exact getElem?_split_self _ _ _
                     have := aaInner_big n (ic + 1) new bk s8 s' res _ hf8 hk' ((hfl6.stp t7).stp t8) hnlow
-                      (by rw [nm_chg t8.chg (hfl6.stp t7).1, nm_chg t7.chg hfl6.1, nm_chg t6.chg hfl5.1, hd5]; exact hk4) e19
+                      (by rw [nm_chg t8.chg (hfl6.stp t7).1, nm_chg t7.chg hfl6.1, nm_chg t6.chg hfl5.1, hd5]; exact hk4)
+                      hlnO8 e19
                     exact this.pre (by rw [t8.mode, t7.mode]; exact hm6) (by rw [t8.orig, t7.orig]; exact ho6)
                       ((hchg6.trans t7.chg).trans t8.chg)
                   rcases ite_run e14 with ⟨_, e14⟩ | ⟨_, e14⟩
@@ -781,8 +922,6 @@ theorem AAF.removeFromStack {m : Mode} {r : Id} {ph : Phase} {s s' : State} {low
     · rw [h1]; exact List.Sublist.refl _
     · rw [hst]; exact List.eraseIdx_sublist _ _
 
-theorem Big.root_name {m : Mode} {r : Id} {ph : Phase} {s : State} (h : Big m r ph s) : nm s.dom r = hN "html" := by
-  obtain ⟨_, hc, _⟩ := h; exact hc.root_name
 
 set_option maxHeartbeats 1600000 in
 theorem aaOuterStep_big {m : Mode} {r : Id} {ph : Phase} {s s' : State} {subject : Str} {b : Bool}
@@ -902,6 +1041,7 @@ theorem aaOuterStep_big {m : Mode} {r : Id} {ph : Phase} {s s' : State} {subject
                 rw [hst6] at this
                 exact (List.nodup_append.mp this).1)
               hf6.big.afok
+              (by rw [List.append_nil]; exact hf6.big.adj.sub hf6.big.nodup (by rw [hst6]; exact List.sublist_append_left _ _))
             rw [List.append_nil] at this
             rw [hs7, htake]; exact this
           have : PB (afRemove fi "mod.rs:784" >>= fun _ => (pure true : M Bool)) := by pb_walk
@@ -954,22 +1094,41 @@ theorem aaOuterStep_big {m : Mode} {r : Id} {ph : Phase} {s s' : State} {subject
               have hnd6 := hf6.big.nodup
               rw [hf6.st] at hnd6
               have hfbl : fb ∉ below ++ [x] := fun hm => (List.nodup_append.mp hnd6).2.2 fb hm fb hfbab rfl
+              have hfbO : s6.openElems[fbi]? = some fb := by
+                have h1 : s6.openElems = (below ++ x :: pre3) ++ fb :: post2 := by rw [hst6, habv]; simp
+                have h2 : (below ++ x :: pre3).length = fbi := by rw [hfbi]; simp
+                rw [h1, ← h2]; exact getElem?_split_self _ _ _
               have hpost := aaInner_big (low0 := below) fbi 0 fb (.replace x) s6 s7 (ln, bk) above hf6 hlt
                 (hf6.big.fl (by rw [hf6.st]; exact List.mem_append_right _ hfbab) (hf6.dis fb hfbab)) hfbl
-                (hf6.dis fb hfbab) e15
+                (hf6.dis fb hfbab) hfbO e15
               obtain ⟨high', hf7⟩ := hpost.fr
               dsimp -zeta only at e16
               obtain ⟨u8, s8, e17, e18⟩ := bind_ok.mp e16
-              have t8 := removeFromParent_stp hf7.big hpost.fl e17
+              obtain ⟨a8, hpar8, _, _, _, _⟩ := removeFromParent_adj hf7.big.adj
+                (Or.inr ⟨hpost.lnO, exm_of_keepName_false hpost.dis⟩) e17
+              have t8 := removeFromParent_stp hf7.big hpost.fl e17 a8
               have hf8 := hf7.stp t8
               obtain ⟨u9, s9, e19, e20⟩ := bind_ok.mp e18
               have hc8 : c ∈ below ++ [x] := List.mem_append_left _ hcbl
+              have hlnk8 : keepName (nm s8.dom ln) = false := by rw [nm_chg t8.chg hpost.fl.1]; exact hpost.dis
+              have hlnh : ln ∈ high' := by
+                have := hpost.lnO
+                rw [hf7.st] at this
+                rcases List.mem_append.mp this with h | h
+                · exact absurd h hpost.nl
+                · exact h
               have t9 := insertAppropriately_stp hf8.big
                 ⟨by rw [hf8.st]; exact List.mem_append_left _ hc8, hcar⟩ (hpost.fl.stp t8)
-                (aa_cand hf8 hc8 hpost.nl (hpost.fl.stp t8).1 (by rw [nm_chg t8.chg hpost.fl.1]; exact hpost.dis)) e19
+                (aa_cand hf8 hc8 hpost.nl (hpost.fl.stp t8).1 hlnk8) hpar8 hlnk8
+                (fun y hy hky => by
+                  rw [hf8.st] at hy ⊢
+                  rcases List.mem_append.mp hy with h | h
+                  · exact before_append h hlnh
+                  · rw [hf8.dis y h] at hky; cases hky)
+                (by rw [hf8.st]; exact before_append hc8 hlnh) e19
               have hf9 := hf8.stp t9
               obtain ⟨new, s10, e21, e22⟩ := bind_ok.mp e20
-              obtain ⟨t10, hfresh, hnm10, hfl10⟩ := createElement_stp hf9.big e21
+              obtain ⟨t10, hfresh, hnm10, hfl10, hnol10, hpar10, hkids10, htc10⟩ := createElement_stp hf9.big e21
               have hf10 := hf9.stp t10
               extract_lets jp4 at e22
               -- facts about the furthest block and the new element
@@ -984,12 +1143,27 @@ theorem aaOuterStep_big {m : Mode} {r : Id} {ph : Phase} {s s' : State} {subject
               have hnewfb : new ≠ fb := fresh_ne hfbe9 hfresh
               have hold9 : ∀ y ∈ s9.openElems, new ≠ y := fun y hy => fresh_ne (hf9.big.late.st.oe y hy) hfresh
               obtain ⟨u11, s11, e23, e24⟩ := bind_ok.mp e22
-              have t11 := reparent_stp hf10.big (t10.chg.isElement hfbe9) hfl10.1 hfbr hnewr e23
+              have hnew10 : new ∉ s10.openElems := by rw [t10.oe]; exact fun hm => hold9 new hm rfl
+              obtain ⟨a11, hch11new, hch11fb, _, hpo11, _⟩ := reparent_adj hf10.big.adj hf10.big.late.base hkids10
+                hnew10 hfl10.1 e23
+              have t11 := reparent_stp hf10.big (t10.chg.isElement hfbe9) hfl10.1 hfbr hnewr e23 a11
               have hf11 := hf10.stp t11
               obtain ⟨u12, s12, e25, e26⟩ := bind_ok.mp e24
+              have hnk11 : keepName (nm s11.dom new) = false := by
+                rw [nm_chg t11.chg hfl10.1, hnm10]; exact keepName_fmt hfn
+              obtain ⟨a12, hch12, hpo12, _⟩ := appendNode_adj hf11.big.adj hf11.big.late.base (Ne.symm hnewfb)
+                (t11.chg.isElement (t10.chg.isElement hfbe9))
+                (by rw [hpo11 new (hnol10 fb)]; exact hpar10)
+                (isText_false_of_isElement (hfl10.stp t11).1) (not_table_of_keepName_false hnk11)
+                (fun hO _ => absurd (by rw [← t11.oe]; exact hO) hnew10) e25
               have t12 := appendNode_stp hf11.big (t11.chg.isElement (t10.chg.isElement hfbe9)) hfbr (Ne.symm hnewfb)
-                (hfl10.stp t11) e25
+                (hfl10.stp t11) e25 a12
               have hf12 := hf11.stp t12
+              -- the new element is the only child of the furthest block and has taken over its children
+              have hfbk12 : s12.dom.childrenOf fb = [new] := by rw [hch12, hch11fb]; simp
+              have hnp12 : s12.dom.parentOf new = some fb := by rw [hpo12]; simp
+              have hnk12' : s12.dom.childrenOf new = s10.dom.childrenOf fb := by
+                rw [hch12, if_neg hnewfb, hch11new]
               have hfl12 : Fl r s12.dom new := (hfl10.stp t11).stp t12
               have hnm12 : nm s12.dom new = ⟨nsHtml, ftag.name⟩ := by
                 rw [nm_chg t12.chg (hfl10.stp t11).1, nm_chg t11.chg hfl10.1]; exact hnm10
@@ -1080,7 +1254,28 @@ theorem aaOuterStep_big {m : Mode} {r : Id} {ph : Phase} {s s' : State} {subject
                         apply hnew14
                         rw [hf14.st, hhigh2]
                         simpa using hm)
-                      hf14.big.afok).big
+                      hf14.big.afok
+                      (by
+                        have hO14 : s14.openElems = ((below ++ c4) ++ [fb]) ++ post4 := by
+                          rw [hf14.st, hhigh2]; simp
+                        have hsub14 : s14.openElems.Sublist s10.openElems := by
+                          rw [q14.openElems]
+                          refine hsub13.trans ?_
+                          rw [hoea, hoe12, ← t10.oe]; exact List.Sublist.refl _
+                        have hfb10 : fb ∈ s10.openElems := hsub14.subset (by rw [hO14]; simp)
+                        have h3 : below ++ (c4 ++ fb :: new :: post4) = ((below ++ c4) ++ [fb]) ++ new :: post4 := by simp
+                        rw [h3]
+                        refine AdjD.insertChildAbove (by rw [← hO14]; exact hf14.big.adj)
+                          (by rw [← hO14]; exact hf14.big.nodup) hf14.big.late.base
+                          (by rw [isElement_of_nodes hn14]; exact (t12.chg.isElement (t11.chg.isElement (t10.chg.isElement hfbe9))))
+                          hnewfb (by rw [parentOf_of_nodes hn14]; exact hnp12)
+                          (by rw [childrenOf_of_nodes hn14]; exact hfbk12)
+                          (by rw [nm_of_nodes hn14, hnm12]; exact keepName_fmt hfn) ?_
+                        intro e he heO
+                        rw [childrenOf_of_nodes hn14, hnk12'] at he
+                        rw [← hO14] at heO ⊢
+                        exact (hf10.big.adj.pb fb e he (hsub14.subset heO) hfb10).sub hf10.big.nodup hsub14
+                          (by rw [hO14]; simp) heO)).big
                     rw [hs15, hins]; exact this
                   have hm15 : s15.mode = s14.mode := by rw [hs15]
                   have ho15 : s15.origMode = s14.origMode := by rw [hs15]
